@@ -6,8 +6,8 @@ package main
 // Parsed by a small Pratt parser into the AST below; evaluated to SMT terms by eval.go.
 
 import (
-	"strconv"
 	"fmt"
+	"strconv"
 	"strings"
 	"unicode"
 )
